@@ -19,6 +19,7 @@ SEAMDIR = os.path.dirname(os.path.abspath(__file__))
 NAMES = ["G0", "G1", "G2"]
 SHADOW = ["len", "abs", "repr"]          # builtin names that the module namespace may shadow
 BI_MUT = ["ord", "chr"]                  # builtins mutated in the builtins module itself (cache_builtins=False cell only)
+BI_GLOBALS = ["G0", "G1", "G2", "abs"]   # declared module globals: a read falls back to the builtins module at run time in every cell
 
 C26_SRC = '''
 def _decl():
@@ -100,9 +101,13 @@ def gen_history_c26(rng, maxlen, builtins_mutable):
             ops.append(["grow", rng.randint(1, 40)])
         elif r < 0.90:
             ops.append(["shrink"])
-        elif builtins_mutable and r < 0.97:
+        elif builtins_mutable and r < 0.94:
             counter[0] += 1
             ops.append(["bw", rng.choice(BI_MUT), counter[0]] if rng.random() < 0.6 else ["brestore", rng.choice(BI_MUT)])
+        elif r < 0.985:
+            # the builtins module as fallback namespace of declared globals (valid with and without cache_builtins)
+            counter[0] += 1
+            ops.append(["bw", rng.choice(BI_GLOBALS), counter[0]] if rng.random() < 0.65 else ["brestore", rng.choice(BI_GLOBALS)])
         else:
             ops.append(["r", rng.choice(READERS)])
     # every history ends by reading everything
@@ -130,7 +135,7 @@ class Marker:
 
 def run_history_c26(mod, ops):
     """Apply ops to a fresh-state module; returns list of read outcomes."""
-    saved_bi = {k: getattr(builtins, k) for k in BI_MUT}
+    saved_bi = {k: getattr(builtins, k, None) for k in BI_MUT + BI_GLOBALS}
     # reset module state: remove the declared names and junk
     d = mod.__dict__
     for k in list(d):
@@ -178,10 +183,18 @@ def run_history_c26(mod, ops):
             elif k == "bw":
                 setattr(builtins, op[1], Marker(op[2]))
             elif k == "brestore":
-                setattr(builtins, op[1], saved_bi[op[1]])
+                if saved_bi[op[1]] is None:
+                    if hasattr(builtins, op[1]):
+                        delattr(builtins, op[1])
+                else:
+                    setattr(builtins, op[1], saved_bi[op[1]])
     finally:
         for kk, v in saved_bi.items():
-            setattr(builtins, kk, v)
+            if v is None:
+                if hasattr(builtins, kk):
+                    delattr(builtins, kk)
+            else:
+                setattr(builtins, kk, v)
     return out
 
 
@@ -215,7 +228,7 @@ def one_run_c26(check, seed, i, cfg):
         res["probes"]["cell:" + ms["cell"]] = res["probes"].get("cell:" + ms["cell"], 0) + 1
         kinds = {o[0] for o in ops}
         for o in ops:
-            if o[0] in ("w", "d", "bw", "grow"):
+            if o[0] in ("w", "d", "bw", "brestore", "grow"):
                 res["faults"][o[0] if o[0] != "w" else "w:" + o[2]] = res["faults"].get(o[0] if o[0] != "w" else "w:" + o[2], 0) + 1
         if any(e[0] == "r" and e[2] == "NameError" for e in tm):
             res["probes"]["nameerror_reads"] = res["probes"].get("nameerror_reads", 0) + 1
@@ -312,6 +325,8 @@ def check_C26(tier):
         rep.harness_errors.append("determinism self-check failed")
     seen = set()
     for i, v in viol:
+        if v["klass"] in seen:
+            continue
         if v.get("ops") is None:
             # a crashed worker: regenerate this run's histories and find the one that crashes in isolation
             rng = core.rng_for(prop, seed, i)
@@ -325,7 +340,10 @@ def check_C26(tier):
                     found = (ms["cell"], ops)
                     break
             if found is None:
-                rep.harness_errors.append("run %d crashed a worker but no single history reproduces it" % i)
+                seen.add("crash-unreproduced")
+                if "crash-unreproduced-reported" not in seen:
+                    seen.add("crash-unreproduced-reported")
+                    rep.harness_errors.append("run %d crashed a worker but no single history reproduces it" % i)
                 continue
             v = dict(v, cell=found[0], ops=found[1])
         if v["klass"] in seen:
@@ -355,10 +373,17 @@ cdef class A:
         return "A.g"
     cpdef h(self, x):
         return ("A.h", x)
+    cdef k(self):
+        # plain cdef in the base, upgraded to cpdef in B: C calls through an A-typed reference go through a vtable trampoline
+        return "A.k"
+    def self_k(self):
+        return self.k()
 
 cdef class B(A):
     cpdef f(self):
         return "B.f"
+    cpdef k(self):
+        return "B.k"
 
 cdef class C(B):
     cpdef g(self):
@@ -376,6 +401,12 @@ def cc_f(A o):
 def cc_g(A o):
     return c_g(o)
 
+cdef object c_k(A o):
+    return o.k()
+
+def cc_k(A o):
+    return c_k(o)
+
 def cc_f2(A o):
     # second C-level call site with its own cache
     return o.f()
@@ -388,7 +419,7 @@ def cc_pair(A o, A p):
     return (c_f(o), c_f(p), c_g(o), c_g(p))
 '''
 
-METHODS = ["f", "g"]
+METHODS = ["f", "g", "k"]
 
 
 def make_world(mod, rng_choices):
@@ -440,6 +471,8 @@ def run_history_c27(mod, h):
     for op in h["ops"]:
         k = op[0]
         try:
+            if op[0] in ("call", "set", "del", "iset", "idel") and "k" in op[1:4] and h["world"]["base"] == "A":
+                continue        # k is cdef-only in A: not part of the Python-visible protocol there
             if k == "call":
                 o = inst[op[1]]
                 expected = getattr(o, op[2])()          # what Python attribute lookup selects, evaluated by CPython itself
@@ -447,6 +480,8 @@ def run_history_c27(mod, h):
                     got = expected
                 elif op[3] == "c2" and op[2] == "f":
                     got = mod.cc_f2(o)
+                elif op[3] == "c2" and op[2] == "k":
+                    got = o.self_k()        # C-level self.k() inside a method of the base type
                 else:
                     got = getattr(mod, "cc_" + op[2])(o)
                 tkey = (type(o).__name__, op[2])        # the caches are per call site and keyed on the type's dict version
